@@ -14,6 +14,18 @@ CLAIMS = {
              "floating-point behaviour at the tolerance boundary. Trusted: python ast, qsa's closeness-predicate table.",
         technique=TECH + "interprocedural tolerance-taint flow over the resolved call graph, CFG must-pass-through and definite "
                          "assignment, normal-form matching of reference constants"),
+    "C02": dict(
+        text="Decides structural necessary conditions of representation agreement for all inputs: (R1) every function of the eight "
+             "conversion modules resolves its names/attributes and binds its calls; (R2) representation tags taken from the repo's "
+             "to_X_from_Y / convert_X_to_Y naming never mix (a Choi matrix is never fed to an HS parameter; to_X_from_Y returns an X); "
+             "(R3) basis changes are U.hs.U† / U.vec with U_ab = vdot(to_a, from_b), Kraus->HS uses kron(K, conj K); (R4) the sparse "
+             "tables are built with the conjugation/transposition their names state, accessors guard/build/return their own field and "
+             "each *_with_sparsity conversion reads the table of its own direction; (R5) State/Povm/Gate/MProcess fill every "
+             "self.__class__(...) / _generate_from_var_func() slot with a callee the call binds to.",
+        note="Not decided: agreement of each conversion with its defining formula, round trips, linearity, index transpositions inside "
+             "the dictionary-based Choi loops, truncation - all numerical. Trusted: the naming convention as the tag oracle.",
+        technique=TECH + "definedness/arity checking over a resolved call graph, naming-convention type tags, matrix-product normal "
+                         "form (conj/transpose algebra), table-direction agreement, slot (function-pointer) conformance"),
 }
 
 NOT_APPLICABLE = {
